@@ -13,8 +13,10 @@ def run(ctx):
     spec = dict(C08_SPEC)
     spec.update(C13_SPEC)
     res = {}
+    convs = {"dev": convert.make_conv(repo_d), "rel": convert.make_conv(repo_r)}
+    convert.share_length_domains(convs["dev"], convs["rel"], list(spec) + TOTAL_EXTRA)
     for cfg, repo in (("dev", repo_d), ("rel", repo_r)):
-        ls = convert.make_conv(repo)
+        ls = convs[cfg]
         res[cfg] = {}
         for path in list(spec) + TOTAL_EXTRA:
             b = repo.F.bodies.get(path)
@@ -24,13 +26,7 @@ def run(ctx):
     for path in sorted(set(res["dev"]) | set(res["rel"])):
         r.instance()
         a, b = res["dev"].get(path, {}), res["rel"].get(path, {})
-        diff = []
-        for k in sorted(set(a) | set(b), key=str):
-            oa, ob = a.get(k), b.get(k)
-            sa_ = (frozenset(oa.variants), bool(oa.panics)) if oa else None
-            sb_ = (frozenset(ob.variants), bool(ob.panics)) if ob else None
-            if sa_ != sb_:
-                diff.append(k)
+        diff = convert.outcome_map_diff(a, b)
         r.check(not diff, "C18:profile-dependent:%s" % path, "%s behaves differently in dev and release for %d abstract inputs, e.g. %s" % (path, len(diff), diff[:4]), fn=path,
                 sample={"entry": path, "points_compared": len(set(a) | set(b))} if r.instances % 6 == 1 else None)
     rules.append(r.finish())
